@@ -156,6 +156,9 @@ func (c *Conc) Atom(a string) []byte {
 	if c.small && n > 100 {
 		n = int(h%97) + 1
 	}
+	if strings.HasPrefix(a, "sz:") { // an atom of an exact size
+		fmt.Sscanf(a[3:], "%d", &n)
+	}
 	r := rand.New(rand.NewSource(int64(h)))
 	b := make([]byte, n)
 	r.Read(b)
